@@ -53,7 +53,7 @@ theorem noCatch_envOf (P : Params) (t : Tabs) (st : SM.St) (h : ∀ v key, NsNoC
     obtain ⟨q, x, m⟩ := i
     exact h _ _ _
 
-theorem scoped_envOf (P : Params) (t : Tabs) (st : SM.St) (ha : AllocOK t st)
+theorem scoped_envOf (P : Params) (t : Tabs) (st : SM.St) (ha : AllocOK t st) (hs : t.slots = [])
     (h : ∀ v key, NsScoped (P.srcOf v key)) : Scoped (envOf P t st) := by
   intro n
   show NameReadsIn _ ((envOf P t st).formula n)
@@ -63,21 +63,37 @@ theorem scoped_envOf (P : Params) (t : Tabs) (st : SM.St) (ha : AllocOK t st)
   | some i =>
     obtain ⟨q, x, m⟩ := i
     obtain ⟨_, hcid, hm⟩ := cellInfo_some hi
+    have hqi : q ∈ st.ids := mem_ids_of_isSome st .cells q x (by rw [hm]; rfl)
     refine nameReadsIn_mono ?_ _ (h m.payload n.2 (nsAt t st q))
     rintro r ⟨y, hy⟩
     unfold nsAt at hy
-    split at hy
-    · cases hy
-    · split at hy
+    cases hq : qualOf t q y with
+    | some e =>
+      -- no attribute slot is declared
+      simp [qualOf, hs] at hq
+    | none =>
+      rw [hq] at hy
+      simp only at hy
+      unfold nsPlain at hy
+      split at hy
       · cases hy
       · split at hy
-        · rename_i hr
+        · rename_i hg
           simp only [Option.some.injEq, Binding.ref.injEq] at hy
           subst hy
-          simp only [refOf_rid t q y (ha.refs q y hr)]
+          simp only [refOf_rid t q y (ha.gslots q y hqi (by simpa using hg))]
           rw [← hcid]
           exact mem_cellsOf t st q x (by rw [hm]; rfl)
-        · cases hy
+        · split at hy
+          · cases hy
+          · split at hy
+            · rename_i hr
+              simp only [Option.some.injEq, Binding.ref.injEq] at hy
+              subst hy
+              simp only [refOf_rid t q y (ha.refs q y hr)]
+              rw [← hcid]
+              exact mem_cellsOf t st q x (by rw [hm]; rfl)
+            · cases hy
 
 theorem ranked_envOf_noCalls (P : Params) (t : Tabs) (st : SM.St) (lt : Node → Node → Prop)
     (h : ∀ v key, NsNoCalls (P.srcOf v key)) : Ranked (envOf P t st) lt := by
@@ -91,9 +107,10 @@ theorem ranked_envOf_noCalls (P : Params) (t : Tabs) (st : SM.St) (lt : Node →
 
 /-- **the regime for every structural state**, from the sources -/
 theorem wf_envOf (P : Params) (t : Tabs) (st : SM.St) (lt : Node → Node → Prop) (ha : AllocOK t st)
+    (hs : t.slots = [])
     (hnc : ∀ v key, NsNoCatch (P.srcOf v key)) (hsc : ∀ v key, NsScoped (P.srcOf v key))
     (hr : Ranked (envOf P t st) lt) : WF (envOf P t st) lt :=
-  ⟨hr, noCatch_envOf P t st hnc, scoped_envOf P t st ha hsc⟩
+  ⟨hr, noCatch_envOf P t st hnc, scoped_envOf P t st ha hs hsc⟩
 
 /-! ### the combinators -/
 
@@ -177,10 +194,14 @@ theorem envOf_formula_member (P : Params) (t : Tabs) (st : SM.St) (ha : AllocOK 
   simp only [envOf, cellInfo, hd, beq_self_eq_true, if_true, hm, Option.map_some]
 
 /-- without model-level references the namespace of the machine is `SM.nsOf` -/
-theorem nsAt_eq_nsOf (t : Tabs) (st : SM.St) (hg : st.globals = []) (gid : String → RefId) (q : Path) :
+theorem nsAt_eq_nsOf (t : Tabs) (st : SM.St) (hg : st.globals = []) (gid : String → RefId) (q : Path)
+    (hpl : ∀ x, qualOf t q x = none) :
     nsAt t st q = SM.nsOf ⟨t.cid, t.rid, gid⟩ st q := by
   funext x
-  unfold nsAt SM.nsOf
+  unfold nsAt
+  rw [hpl x]
+  simp only
+  unfold nsPlain SM.nsOf
   simp [hg]
 
 /-- **at every member the machine's formula is the formula `SM.structEnv` assigns** (the definitions
@@ -189,10 +210,10 @@ right at the member -/
 theorem envOf_agrees_with_structEnv (P : Params) (t : Tabs) (st : SM.St) (ha : AllocOK t st)
     (hg : st.globals = []) (se : SEnv) (D : SM.Dec) (gid : String → RefId) (q : Path) (n : String) (m : Member)
     (hm : st.mem .cells q n = some m) (key : Key)
-    (hdec : D.cellOf (t.cid q n) = (q, n)) (hnum : D.pathOf (D.num q) = q) :
+    (hdec : D.cellOf (t.cid q n) = (q, n)) (hnum : D.pathOf (D.num q) = q) (hpl : ∀ x, qualOf t q x = none) :
     (envOf P t st).formula (t.cid q n, key) =
       (SM.structEnv se ⟨t.cid, t.rid, gid⟩ D P.srcOf P.valOf st).toEnv.formula (t.cid q n, key) := by
-  rw [envOf_formula_member P t st ha q n m hm key, nsAt_eq_nsOf t st hg gid q]
+  rw [envOf_formula_member P t st ha q n m hm key, nsAt_eq_nsOf t st hg gid q hpl]
   exact (SM.structEnv_formula se ⟨t.cid, t.rid, gid⟩ D P.srcOf P.valOf st q n key m hdec hnum hm).symm
 
 
